@@ -125,9 +125,9 @@ def run(ctx):
         help_text = None
     ok = help_text is not None and core.run_bridge(ctx, {"GenKMHelp.v": help_text}, ["KMHelpBridge.v"])
     # ---- whole-function tie of estimateZ0 / estimateFootprint (needs only part 1)
-    whole, fun_ok = {}, False
+    whole, fun_oks = {}, {}
     if help_text is not None and ok:
-        whole, fun_ok = py2coq_km.run(ctx)
+        whole, fun_oks = py2coq_km.run(ctx)
     else:
         ctx.obligation("gen:GenKMFun.v", False, "not generated: the helper slices are broken")
     check_skeleton(ctx, whole)
@@ -145,7 +145,7 @@ def run(ctx):
     try:
         ltext = generate_loop()
     except py2coq.TranslateError as e:
-        if fun_ok and "estimateZ0" in whole:
+        if fun_oks.get("estimateZ0"):
             ctx.cov["km_loop_slices_subsumed"] = {"slices": list(LOOP), "lemmas": ["bridge_idx1", "bridge_idx2"],
                                                   "reason": "not found by name (%s); implied by bridge_estimateZ0_circle / bridge_estimateZ0, discharged on the current source" % e}
             ltext = None
@@ -156,4 +156,4 @@ def run(ctx):
     if ltext is not None:
         ok3 = core.run_bridge(ctx, {"GenKMLoop.v": ltext}, ["KMLoopBridge.v"])
     ctx.cov["slices_translated"] = ctx.cov.get("slices_translated", 0) + len(SLICES)
-    return ok2 and ok3 and fun_ok
+    return ok2 and ok3 and bool(fun_oks) and all(fun_oks.values())
